@@ -255,7 +255,7 @@ fn seqs(alpha: &[A], n: usize) -> Vec<Vec<A>> {
     out
 }
 
-fn cases(tier: Tier) -> Vec<Case> {
+fn base_cases(tier: Tier) -> Vec<Case> {
     let mut v = vec![];
     let mbs: &[Mailbox] = if tier == Tier::Quick { &[Mailbox::U, Mailbox::B(1)] } else { &[Mailbox::U, Mailbox::B(0), Mailbox::B(1)] };
     // plain actors
@@ -365,6 +365,15 @@ fn cases(tier: Tier) -> Vec<Case> {
             }
         }
     }
+    v
+}
+
+fn cases(tier: Tier) -> Vec<Case> {
+    // neutral re-configurations of the plain-loop cases (see check::widen): a handler timeout
+    // nobody comes near and a bounded mailbox that never fills
+    let plain = |d: &str| d.contains("lifecycle \"plain\"") && d.contains("timeout=None");
+    let mut v = base_cases(tier);
+    v.extend(crate::check::with_ambient(base_cases(tier).into_iter().filter(|c| plain(&c.desc)).collect(), crate::scenes::Ambient { generous_timeout: true, roomy: true, ..Default::default() }));
     v
 }
 
